@@ -400,14 +400,45 @@ func (w *world) runHistory(h History) (fails []string, trace string) {
 		}
 		evs := make(chan core.ChainEvent, 64)
 		evSub := bc.SubscribeChainEvent(evs)
+		heads := make(chan core.ChainHeadEvent, 64)
+		headSub := bc.SubscribeChainHeadEvent(heads)
+		headBefore := bc.CurrentBlock().Hash()
 		idx, err := bc.InsertChain(bs)
 		evSub.Unsubscribe()
+		headSub.Unsubscribe()
+		// a call that moved the head announces it, the last announcement being the block that is now the head;
+		// a call that did not move it announces none; nothing is announced twice in a row or twice as canonical
+		close(heads)
+		var headEvents []common.Hash
+		for he := range heads {
+			headEvents = append(headEvents, he.Block.Hash())
+		}
+		if err == nil {
+			now := bc.CurrentBlock().Hash()
+			switch {
+			case now != headBefore && (len(headEvents) == 0 || headEvents[len(headEvents)-1] != now):
+				// (one call may move the head several times, e.g. when a stored side chain is executed first)
+				return []string{fmt.Sprintf("step %d: the head moved to %s but the last of the %d head events announced is not that block (%x)", si, w.nameOf(now), len(headEvents), headEvents)}, trace
+			case now == headBefore && len(headEvents) != 0:
+				return []string{fmt.Sprintf("step %d: the head did not move but %d head events were announced", si, len(headEvents))}, trace
+			}
+		}
 		if err != nil {
 			return []string{fmt.Sprintf("step %d: valid block %s rejected: %v", si, w.nodes[st.Ins[idx]].name, err)}, trace
+			for k := 1; k < len(headEvents); k++ {
+				if headEvents[k] == headEvents[k-1] {
+					return []string{fmt.Sprintf("step %d: head %s announced twice in a row", si, w.nameOf(headEvents[k]))}, trace
+				}
+			}
 		}
 		// the logs announced with a block that became canonical are the logs of its receipts, in order
 		close(evs)
+		announced := map[common.Hash]bool{}
 		for e := range evs {
+			if announced[e.Hash] {
+				return []string{fmt.Sprintf("step %d: block %s announced as canonical twice in one call", si, w.nameOf(e.Hash))}, trace
+			}
+			announced[e.Hash] = true
 			for _, n := range w.nodes {
 				if n.block.Hash() != e.Hash {
 					continue
